@@ -128,6 +128,7 @@ void install_hooks() {
 // ---------------------------------------------------------------------------
 // allocation fault: global operator new, armed only inside an update event
 
+#ifndef YS_NO_NEW_REPLACEMENT
 static void* ys_alloc(std::size_t n) {
     if (ys::g.alloc_armed) {
         ++ys::g.alloc_count;
@@ -183,3 +184,4 @@ void operator delete(void* p, const std::nothrow_t&) noexcept {
 void operator delete[](void* p, const std::nothrow_t&) noexcept {
     std::free(p);
 }
+#endif // YS_NO_NEW_REPLACEMENT
